@@ -32,7 +32,7 @@ from .common import WORKERS, T8, tname, conc_vt, run_mutants
 PROP = "C01"
 M_X = "rzilcompiler.HexagonExtensions"
 
-CONSTITUENTS = ["c02", "c03", "c05", "c06", "c07", "c08", "c09", "c11", "c12", "c13", "c14", "c15", "c16"]
+CONSTITUENTS = ["c02", "c03", "c05", "c06", "c07", "c08", "c09", "c11", "c12", "c13", "c14", "c15", "c16", "c18", "c19"]
 
 MUTANTS = [
     {"name": "ArithmeticOp.il_exec: / emits MOD", "file": "rzilcompiler/Transformer/Pures/ArithmeticOp.py",
@@ -493,10 +493,23 @@ def run(check: Check):
     check.trust("T-CANCEL: a bare `cancel_slot;` (loads, returns) has no architectural effect - slot-cancel state matters only for stores, which the "
                 "shortcode marks with STORE_SLOT_CANCELLED(pkt, slot); the NOP translation is accepted on that ground")
     check.assume("constituent modules are re-generated with their reduced instance sets here; their full instance sets are C02..C16's own checks")
+    t0 = time.time()
+    phases = {}
+
+    def phase(name):
+        phases[name] = round(time.time() - t0, 1)
+        if os.environ.get("VERIF_DEBUG"):
+            print(f"DEBUG phase {name} done at {phases[name]} s", flush=True)
     check.run_parallel("contracts.c01", "gen_task", [{"what": w} for w in ("division", "types", "misc", "transform_insn")], workers=WORKERS)
-    check.run_parallel("contracts.c01", "constituent", [{"module": m} for m in CONSTITUENTS], workers=WORKERS)
+    phase("own contracts")
+    # the constituents' own thorough tiers do the full second-solver cross-check; here it is capped
+    check.run_parallel("contracts.c01", "constituent", [{"module": m} for m in CONSTITUENTS], workers=WORKERS, sink_attrs={"cross_check_limit_s": 120})
+    phase("constituents")
     coverage_lemma(Loader_(), check)
+    phase("coverage lemma")
     run_mutants(check, MUTANTS, "contracts.c01", "generate_reduced")
+    phase("mutant self-test")
+    check.extra["phase_seconds"] = phases
     if check.tier == "thorough":
         try:
             from . import corpus
@@ -504,6 +517,7 @@ def run(check: Check):
             corpus = None
         if corpus is not None:
             corpus.monitored_run(check)
+            phase("monitored corpus run")
     return check.finish(
         level="proof",
         rule="own obligations (division, declaration types, nop/cancel, transform_insn for any number of parts) + re-generated constituent "
